@@ -111,6 +111,9 @@ def gen_case(rng, tier, g):
                                   'failed-then-rollback', 'pending-dml']),
             'pipeline': rng.random() < 0.3,
             'schema': rng.choice([None, None, 'main']),
+            # identifier quoting: names with a space, reserved words
+            'tname': rng.choice(['t', 't', 'my table', 'select', 'Order',
+                                 'ta-b']),
             # exception classes the failing source raises, cycled over the
             # failure indexes (code that catches TypeError etc. for its own
             # purposes must not swallow a source failure)
@@ -135,8 +138,8 @@ class _Bad(Exception):
 def _fresh_read(path, cols):
     conn = sqlite3.connect(path, timeout=0)
     try:
-        cur = conn.execute('select %s from t order by rowid' % ', '.join(
-            '"%s"' % c for c in cols))
+        cur = conn.execute('select %s from "%s" order by rowid' % (', '.join(
+            '"%s"' % c for c in cols), _TNAME[0]))
         return [tuple(r) for r in cur.fetchall()]
     finally:
         conn.close()
@@ -146,9 +149,10 @@ def _setup(path, cols, prior):
     if os.path.exists(path):
         os.unlink(path)
     conn = sqlite3.connect(path)
-    conn.execute('create table t (%s)' % ', '.join('"%s"' % c for c in cols))
-    conn.executemany('insert into t values (%s)' % ','.join('?' * len(cols)),
-                     prior)
+    conn.execute('create table "%s" (%s)' % (
+        _TNAME[0], ', '.join('"%s"' % c for c in cols)))
+    conn.executemany('insert into "%s" values (%s)' % (
+        _TNAME[0], ','.join('?' * len(cols))), prior)
     conn.commit()
     conn.close()
 
@@ -174,6 +178,7 @@ def _mk_dbo(handle, path, caller):
 
 
 _SCHEMA = [None]
+_TNAME = ['t']
 
 
 def _load(e, op, src, dbo, commit):
@@ -181,9 +186,9 @@ def _load(e, op, src, dbo, commit):
     if _SCHEMA[0] is not None:
         kw['schema'] = _SCHEMA[0]
     if op == 'todb':
-        e.todb(src, dbo, 't', commit=commit, **kw)
+        e.todb(src, dbo, _TNAME[0], commit=commit, **kw)
     else:
-        e.appenddb(src, dbo, 't', commit=commit, **kw)
+        e.appenddb(src, dbo, _TNAME[0], commit=commit, **kw)
 
 
 def _check(path, cols, model, what, pending=False):
@@ -365,8 +370,9 @@ def _one(e, case, path, op, handle, commit, fault, log):
                 rh = {'conn': rd, 'name': tpath,
                           'cursor': rd.cursor(),
                           'mkcurs': (lambda: rd.cursor())}[via]
-                view = e.fromdb(rh, 'select %s from t order by rowid'
-                                % ', '.join('"%s"' % c for c in cols))
+                view = e.fromdb(rh, 'select %s from "%s" order by rowid'
+                                % (', '.join('"%s"' % c for c in cols),
+                                   _TNAME[0]))
                 got = [tuple(r) for r in iter(view)]
                 if via != 'cursor':
                     # a second pass returns the same rows
@@ -425,6 +431,7 @@ def run_case(case):
             [['badrow', i] for i in range(1, n + 1)]
     nruns = 0
     _SCHEMA[0] = case.get('schema')
+    _TNAME[0] = case.get('tname', 't')
     fired = {'source-raise': 0, 'malformed-row': 0}
     try:
         with devices.TempSandbox() as sb:
@@ -495,8 +502,8 @@ def shrink_candidates(case):
         c['prior'] = c['prior'][:-1]
         yield c
     for k, v in (('prefix', 'none'), ('pipeline', False), ('attach', False),
-                 ('schema', None), ('source_kind', 'sim')):
-        if case[k] != v:
+                 ('schema', None), ('source_kind', 'sim'), ('tname', 't')):
+        if case.get(k, v) != v:
             c = copy.deepcopy(case)
             c[k] = v
             yield c
